@@ -129,6 +129,7 @@ def install(I):
 
     I.contracts['time.Now'] = now
     I.contracts['(time.Time).Unix'] = t_unix
+    I.contracts['(time.Time).UnixNano'] = lambda I, a, ins: simp(iv(tsec(a[0])) * NS + iv(tnsec(a[0])))
     I.contracts['time.Unix'] = unix
     I.contracts['(time.Time).In'] = t_in
     I.contracts['(time.Time).UTC'] = t_in
